@@ -269,7 +269,7 @@ class ChannelFamily(PureFamily):
                 ds.attrs["Stop time (ns)"] = spec["start"] + len(data) * spec["dt"]
                 ds.attrs["Sample rate (Hz)"] = 1e9 / spec["dt"]
                 ds.attrs["Kind"] = "Continuous"
-                return Slice(Continuous.from_dataset(ds).__class__(ds, spec["start"], spec["dt"]), {"title": "t", "y": "y"})
+                return Continuous.from_dataset(ds)  # a Slice over a lazily read dataset
             return Slice(Continuous(data, spec["start"], spec["dt"]), {"title": "t", "y": "y"})
         return Slice(TimeSeries(data, np.asarray(spec["ts"], dtype=np.int64)), {"title": "t", "y": "y"})
 
